@@ -449,7 +449,9 @@ pub fn gen_type(rng: &mut Rng, u: &Universe, depth: usize) -> String {
             } else {
                 // (JVMS 4.2.2 forbids only . ; [ / inside a segment: `<`, `>`, `(`, `)` are legal)
                 rng.pick(&["I", "Lib", "x/Long", "java/lang/String", "é/É", "V", "a/b$c", "L", "x<y", "a<b>", "<init>", "a)b", "x/y)z", "a(b", "p>q", "kotlin/jvm/internal/k",
-                           "kotlinx/coroutines/a0", "a b", "-", "a-b"]).to_string()
+                           "kotlinx/coroutines/a0", "a b", "-", "a-b",
+                           // names that end in, start with or are a primitive keyword
+                           "x/Devoid", "Avoid", "void", "x/int", "boolean", "voidx", "x/void", "com/example/collision/Avoid"]).to_string()
             };
             format!("L{};", name)
         }
@@ -1671,6 +1673,33 @@ pub fn gen_c11(rng: &mut Rng, tier: &str, out: &mut Out) {
                 }
             }
         }
+        // one count / size field edited AND the file torn around a section boundary (the padding before
+        // a section is only checked through that section's own length)
+        if i % 4 == 2 && bytes.len() >= 24 {
+            for field in 2..6usize {
+                let orig = get_u32(&bytes, field * 4);
+                for v in [0u32, orig.saturating_sub(1), orig.wrapping_add(1)] {
+                    if v == orig {
+                        continue;
+                    }
+                    for b in [b1, b2, b3, len] {
+                        for d in 0..=8usize {
+                            let cut = (b + 4).saturating_sub(d);
+                            if cut < 24 || cut > len {
+                                continue;
+                            }
+                            let mut bb = bytes[..cut].to_vec();
+                            set_u32(&mut bb, field * 4, v);
+                            out.d(format!("BUF {}", hx(&bb)));
+                            out.count("field_edit_and_truncation");
+                            if let Some((cl, _)) = u.pairs.first() {
+                                out.d(format!("BCLS {}", hxs(cl)));
+                            }
+                        }
+                    }
+                }
+            }
+        }
         // header edits
         for field in 0..6usize {
             let orig = get_u32(&bytes, field * 4);
@@ -2290,8 +2319,8 @@ pub fn gen_c16(rng: &mut Rng, tier: &str, out: &mut Out) {
     }
     many_class_sig_ops(out, if th { 4200 } else { 1100 });
     // bounded-exhaustive: all descriptors with ≤ 3 parameters over a 6-type alphabet
-    map_op(out, true, b"o.A -> a:\no.Lib -> Lib:\n");
-    const T: &[&str] = &["I", "La;", "[J", "LLib;", "[[Lx/y;", "Z"];
+    map_op(out, true, b"o.A -> a:\no.Lib -> Lib:\ncom.example.collision.Devoid -> Avoid:\n");
+    const T: &[&str] = &["I", "La;", "[J", "LLib;", "[[Lx/y;", "Z", "LAvoid;", "Lx/void;"];
     let mut cnt = 0u64;
     for r in 0..T.len() + 1 {
         let ret = if r == T.len() { "V" } else { T[r] };
